@@ -195,10 +195,10 @@ def run(tier, work, replay=None):
                 owners.append(feats)
     # ---- (f) fragment closure over FragmentsPkg cases
     from .c08 import cfg as fcfg, cases_from, render_case
-    fr = run_tlc("FragmentsPkg_MC", fcfg(3, 1, 2, "NoDeviations", export=2500 if q else 400, invs=["DocIsClosure"]), work.sub("tlcf"), workers=8, timeout=3000)
+    fr = run_tlc("FragmentsPkg_MC", fcfg(3, 1, 2, "NoDeviations", export=2500 if q else 400, invs=["DocIsClosure"], perms="TwoPerms"), work.sub("tlcf"), workers=8, timeout=3000)
     tlc_must_pass(fr, "FragmentsPkg (DocIsClosure)")
     v.add_tlc(fr, "FragmentsPkg exhaustive NF=3 (DocIsClosure)")
-    fdev = run_tlc("FragmentsPkg_MC", fcfg(3, 1, 1, "OldClosure", invs=["DocIsClosure"]), work.sub("tlcf"), workers=4, timeout=3000)
+    fdev = run_tlc("FragmentsPkg_MC", fcfg(3, 1, 1, "OldClosure", invs=["DocIsClosure"], perms="TwoPerms"), work.sub("tlcf"), workers=4, timeout=3000)
     if "DocIsClosure" not in fdev.invariant_violated:
         raise Machinery("anti-vacuity: the old closure computation does not violate DocIsClosure")
     fcases = cases_from(fr)
@@ -208,7 +208,7 @@ def run(tier, work, replay=None):
         c = fcases[ci]
         mix = ("frag", 1 + ci % len(c["defs"])) if ci % 3 == 0 else (("field", 1, 1) if ci % 3 == 1 else None)
         perm = None
-        qtext = render_case(c["defs"], c["ops"], perm, mix)
+        qtext = render_case(c["defs"], c["ops"], perm, mix, c["nm"])
         job = write_job(work.dir / f"job_f_{ci}", schema=gamma.SDL, queries=qtext, package="gclient",
                         options={"async_client": False, "files_to_include": ["mixins_mod.py"]},
                         files={"mixins_mod.py": "class MixinF:\n    pass\n\n\nclass MixinO:\n    pass\n"})
@@ -231,6 +231,35 @@ def run(tier, work, replay=None):
         for name, rec in o["ops"].items():
             n_eval += 1
             judge_doc(v, feats, uschema, qtext, name, rec.get("body"), {"queries": qtext})
+    # ---- (d) directives, aliases, nested selections: the operations of the ResultModel universe (conditional fields, inline
+    #          fragments and spreads, fragments shared between the operations of ONE queries file, in file order)
+    from .. import resultcore as rc
+    uops1, ur1 = rc.enumerate_ops(work, 1, "AllRoots", True, invs=False)
+    uops2, ur2 = rc.enumerate_ops(work, 2, "AllRoots", True, invs=False)
+    v.add_tlc(ur2, "ResultModel!Ops (operation universe, enumeration only)")
+    rnd2 = random.Random(seed() + 5)
+    interesting = [op for op in uops2 if gamma.features(op)["cond_fragment"] or gamma.features(op)["cond_field"] or gamma.features(op)["alias"]]
+    rnd2.shuffle(interesting)
+    uops = uops1 + interesting[: (250 if q else 3000)]
+    rnd2.shuffle(uops)          # a conditional and an unconditional user of one fragment end up in one file, in either order
+    uitems = rc.name_ops(uops)
+    good, failed = rc.generate_batches(work, uitems, {"async_client": False}, batch=25, tag="c2d_")
+    for it, r in failed:
+        pass                    # generation failures of universe operations are C01's / C04's business (known findings there)
+
+    def done(gb):
+        job, items_ = gb
+        o = run_in_pkg(job, "harness.pkg.capture", {"package": "gclient", "ops": [it["name"] for it in items_], "data": None,
+                                                    "args": {"inc": True, "skp": False}})
+        return job, items_, o
+    for job, items_, o in pmap(done, good):
+        authored = gamma.render_queries([(it["name"], it["op"]) for it in items_])
+        for it in items_:
+            n_eval += 1
+            rec = o["ops"].get(it["name"], {})
+            feats = dict(gamma.features(it["op"]), part="universe")
+            judge_doc(v, feats, uschema, authored, it["name"], rec.get("body"), {"operation": gamma.render_op(it["name"], it["op"])})
+    v.cov["universe_operations"] = len(uitems)
     v.cov["evaluations"] = n_eval
     rs, rejected, inv = validate_traces_parallel("OpText_Trace", "OpText_Trace.cfg", traces, work.sub("tv"), chunk_size=2500)
     for r3 in rs:
